@@ -13,6 +13,7 @@ from gxstat.algebra import Poly, Rat, Translator, Unsupported
 from gxstat.depgraph import def_sites, deps_of
 from gxstat.flowutil import guards_of
 from gxstat.loops import loop_stores
+from gxstat.callgraph import get_callgraph
 from gxstat.srcmodel import AnalysisError, calls_in, dotted_name, norm
 from gxstat.symflow import target_key
 
@@ -293,6 +294,67 @@ def check_d4(ctx) -> None:
     ctx.check('indexfirstmaxdrawdown > 0' in g2, 'D4', 'WellBores.Calculate/redrill-only-if-limit-reached', f'{rel}:{s.lineno}', 'tiling is not guarded by index > 0')
 
 
+def check_d6_d7(ctx) -> None:
+    repo = ctx.repo
+    cg = get_callgraph(repo)
+    # ---- D6: helpers reached from the reservoir / wellbore calculations do not store into their array arguments.  The time vector,
+    # temperature histories and pressure series are shared objects of the model; an element store on a parameter changes them for
+    # every later reader (the history would no longer start at t = 0 / at the bottom-hole temperature).
+    roots = [f for f in repo.all_functions() if f.name == 'Calculate' and f.cls is not None and
+             (f.cls.name.endswith('Reservoir') or f.cls.name.endswith('WellBores') or f.cls.name.endswith('Wellbores'))]
+    ctx.floor('D6', len(roots), 8, 'reservoir / wellbore Calculate methods')
+    fns = [f for f in cg.reachable(roots).values() if f.module.rel.startswith('src/geophires_x/') and f.cls is None]
+    ctx.floor('D6', len(fns), 5, 'module-level helpers reached from reservoir / wellbore calculations')
+    for f in fns:
+        params = {a.arg for a in f.node.args.args + f.node.args.kwonlyargs} - {'self', 'cls', 'model'}
+        rebound = {st.targets[0].id for st in ast.walk(f.node) if isinstance(st, ast.Assign) and len(st.targets) == 1 and isinstance(st.targets[0], ast.Name)}
+        bad = None
+        for st in ast.walk(f.node):
+            tg = st.targets[0] if isinstance(st, ast.Assign) else st.target if isinstance(st, ast.AugAssign) else None
+            if tg is None:
+                continue
+            base = tg
+            while isinstance(base, ast.Subscript):
+                base = base.value
+            if isinstance(base, ast.Name) and base.id in params and base.id not in rebound and \
+                    (isinstance(tg, ast.Subscript) or isinstance(st, ast.AugAssign) and _array_like(f, base.id)):
+                bad = st
+                break
+        key = f'{f.qualname}/does-not-store-into-its-arguments'
+        if bad is not None:
+            ctx.bad('D6', key, f'{f.module.rel}:{bad.lineno}',
+                    f'`{norm(bad)[:90]}` stores into the argument `{norm(bad.targets[0] if isinstance(bad, ast.Assign) else bad.target).split("[")[0]}` of a helper '
+                    f'called from the reservoir/wellbore calculation: the caller passes shared model arrays (time vector, temperature and '
+                    f'pressure histories), which are changed for every later reader')
+        else:
+            ctx.ok('D6', key, f.where, f'{len(params)} parameters, none stored to')
+    # ---- D7: depth unit typestate.  read_parameters turns the depth into metres, Reservoir.Calculate integrates the gradient over metres,
+    # Economics.Calculate hands it back in kilometres.  A second evaluation of the model would therefore start from kilometres: the
+    # base Reservoir.Calculate must stay memoised (its first result is reused) as long as a Calculate relabels the depth to km.
+    relabels = []
+    for f in repo.all_functions():
+        if f.name == 'Calculate' and f.cls is not None and f.cls.name.endswith('Economics'):
+            for st in ast.walk(f.node):
+                if isinstance(st, ast.Assign) and norm(st.targets[0]) == 'model.reserv.depth.CurrentUnits' and norm(st.value).endswith('KILOMETERS'):
+                    relabels.append((f, st))
+    base = repo.method('Reservoir', 'Calculate', 'geophires_x/Reservoir.py')
+    memo = any((dotted_name(d.func) if isinstance(d, ast.Call) else dotted_name(d)) in ('lru_cache', 'functools.lru_cache', 'cache', 'functools.cache')
+               for d in base.node.decorator_list)
+    if relabels:
+        f0, st0 = relabels[0]
+        ctx.check(memo, 'D7', 'Reservoir.Calculate/memoised-while-depth-is-handed-back-in-km', base.where,
+                  f'{f0.qualname} (line {st0.lineno}) leaves model.reserv.depth in kilometres, and Reservoir.Calculate - which integrates the '
+                  f'gradient over a depth in metres - is no longer memoised: a second Model.Calculate() on the same model computes the '
+                  f'bottom-hole temperature over a depth 1000 times too small', fact='lru_cache on Reservoir.Calculate')
+    else:
+        ctx.ok('D7', 'Reservoir.Calculate/memoised-while-depth-is-handed-back-in-km', base.where, 'no Calculate relabels the depth to km')
+
+
+def _array_like(f, name: str) -> bool:
+    """The parameter is subscripted somewhere in the function (so `p += x` acts on an array in place)."""
+    return any(isinstance(n, ast.Subscript) and isinstance(n.value, ast.Name) and n.value.id == name for n in ast.walk(f.node))
+
+
 def run(ctx) -> None:
     ctx.rule('D1', 'the depth cap (depth := min(depth, depth at Tmax)) precedes every statement that reads the depth and feeds bottom-hole '
                    'temperature (segment lookup included)')
@@ -304,5 +366,11 @@ def run(ctx) -> None:
     check_d1_d2(ctx)
     check_d3_d5(ctx)
     check_d4(ctx)
+    ctx.rule('D6', 'helpers reached from reservoir/wellbore calculations do not store into their (shared) array arguments')
+    ctx.rule('D7', 'the base Reservoir.Calculate stays memoised while an economics Calculate hands the depth back in kilometres')
+    ctx.rule('D8', 'a segment thickness / gradient that was explicitly converted is not re-guessed by a magnitude heuristic (shared rule U4)')
+    check_d6_d7(ctx)
+    from rules.u4 import check_converted_then_guessed
+    check_converted_then_guessed(ctx, 'D8', only_attrs={'layerthickness', 'gradient'})
     ctx.undecided('Stehfest / Talbot Laplace inversions (models 1, 2)', 'the next()/max() layer search for arbitrary layouts', 'Ramey wellbore model numerics')
     ctx.assume('erf maps [0, inf) into [0, 1) and is increasing')
